@@ -52,22 +52,28 @@ PROP = dict(
     assumptions=[
         "programs over the data fragment of C06 (no closures, imports, randomness, time); orderby with tied keys is exempt (documented "
         "order-dependent) and excluded from the cross-process comparison",
-        "sets that superimpose two sugar tuples at one index are excluded (KF-superimposed: genuine order dependence, witness theorem)",
+        "sets that superimpose two sugar tuples at one index are excluded (KF-superimposed: genuine order dependence, witness theorem "
+        "and C07_full_false); byte tuples with a gap are reported under their own id (KF-bytes-holes)",
         "unary minus over char/byte tuples is not generated (a negated @char is a hole marker: C05/C01)",
         "a third of the programs pick 'an element' or depend on 'the first element' of an enumeration (set patterns in let and cond, "
         "rank with 2-3 ranking attributes and many ties, orderby with tied keys mapped to its keys, max/min, nest) over collections "
-        "of 12-18 members (frozen keeps up to ~8 items in insertion order); they are predicted under the identity order and are "
-        "outside the theorems - the N-process run is their tie, error outcomes included"],
-    level_text="Proof (partial): 13 Lean theorems over the C06 representation model - sorting by the C06 order is invariant under "
-               "permutation of the input, the canonical key of generic sets, union sets and relations depends only on the multiset of "
-               "member keys, orderby without ties is enumeration-independent (with ties only tied members swap), the set builder is "
-               "order-independent on the generic bucket (numbers, sets, the empty tuple), printed text is a function of the canonical "
-               "key for values without dictionaries/relations/union sets inside, and every NESTED program of the generic fragment "
-               "(| & &~ where with without {x} => over such sets) has the same canonical result under every enumeration order; "
-               "KF-superimposed has a witness of genuine order dependence. Not proved: set-builder order-independence for the "
-               "string/bytes/array/dict/relation buckets and the programs that need it (full statements kept as defs). Runtime tie: "
-               "the same programs in N fresh processes with different hash seeds, byte-identical canon / repr / CLI output, equal to "
-               "the model's prediction.",
+        "of 12-18 members (frozen keeps up to ~8 items in insertion order); they are predicted under the identity order; the "
+        "theorems cover rank and both set-pattern forms as Ex terms, the remaining shapes rest on the N-process run, error "
+        "outcomes included"],
+    level_text="Proof (partial): 19 Lean theorems over the C06 representation model. C07 / C07_printed: every admissible program, nested "
+               "to any depth over | & &~ where with without count {x}, => and orderby (element functions ., constant, (a: .), "
+               "(a: ., b: n), [.]; orderby under NoTies), rank (rank = number of strictly smaller keys, ties included) and set "
+               "patterns let {lits, ...t} / let {lits, a}, over literals of every representation (strings, bytes, arrays, dicts, "
+               "relations, union sets), has the same canonical result AND the same printed text (fu.Repr, OutputValue) or the same "
+               "error under every enumeration order of every collection it walks. Supporting theorems: the set builder is "
+               "order-independent for all buckets (generic, string, bytes, array, dict, relation) and the assembly of union sets "
+               "under the no-superimposed hypothesis; printed text is a function of the canonical key for all well-named values "
+               "(dict, relation, union included); sorting by the C06 order is permutation-invariant; orderby with ties only swaps "
+               "tied members. The unrestricted statement is proved FALSE (C07_full_false, KF-superimposed witness). Not in the "
+               "theorems: element functions -. and {.}, the generated shapes that are not Ex terms (cond set patterns, rank over "
+               ".i % 3, nest, max/min, tied orderby mapped to keys), error messages, parsing. Runtime tie: the same programs in N "
+               "fresh processes with different hash seeds, byte-identical canon / repr / CLI output, equal to the model's "
+               "prediction.",
     design_ref="DESIGN.md section 6, C07",
     watch=["rel.SetBuilder.Add", "rel.SetBuilder.Finish", "rel.asString", "rel.asBytes", "rel.asArray", "rel.NewDict",
            "rel.newSetFromFrozenSet", "rel.GenericSet.Format", "rel.UnionSet.Format", "rel.Dict.Format", "rel.Dict.OrderedEntries",
